@@ -1,5 +1,6 @@
 (* C10 - mesh topology is independent of encoding and internally consistent. *)
 From Coq Require Import ZArith List Bool.
+From EV Require Import Model.EdgeDim Proofs.EdgeDimP.
 From EV Require Import Base.Index Base.ListX Model.Topology Model.Fill Proofs.TopologyP Proofs.TopologyP2 Proofs.FillP.
 Import ListNotations.
 Open Scope Z_scope.
@@ -101,3 +102,21 @@ Print Assumptions C10_fill_is_no_element.
 Theorem C10_decimal_digits : forall n, 0 <= n -> n < 10 ^ digits n /\ (1 <= n -> 10 ^ (digits n - 1) <= n).
 Proof. exact digits_spec. Qed.
 Print Assumptions C10_decimal_digits.
+
+(* ---- which dimension numbers the edges (Mesh2DTopology.has_edge_dimension / edge_dimension; model EdgeDim, which adds to
+   Topology.edge_dimension what UGRID allows a file to look like) *)
+(* on every mesh UGRID allows (tables in standard order, or the edge_dimension attribute given) the dimension found is the one
+   that numbers the edges, and it is found exactly when the mesh has edges *)
+Theorem C10_edge_dimension_correct : forall e m, EdgeDim.valid_edges e m = true ->
+  (EdgeDim.has_edge_dimension m = true <-> EdgeDim.edge_dimension m <> None) /\
+  (EdgeDim.has_edge_dimension m = true -> EdgeDim.edge_dimension m = Some e).
+Proof. intros e m H. split; [apply edge_dimension_defined_iff|now apply edge_dimension_correct]. Qed.
+Print Assumptions C10_edge_dimension_correct.
+
+(* the order in which the two edge tables are consulted plays no part on such meshes, and does on a file that stores one
+   table the other way round without naming the dimension - which UGRID does not allow *)
+Theorem C10_edge_table_order_irrelevant_on_valid_meshes :
+  (forall e m, EdgeDim.valid_edges e m = true -> EdgeDim.edge_dimension_last m = EdgeDim.edge_dimension m) /\
+  (exists m, EdgeDim.edge_dimension_last m <> EdgeDim.edge_dimension m /\ forall e, EdgeDim.valid_edges e m = false).
+Proof. split; [exact lookup_order_irrelevant_when_valid|exact lookup_order_matters_only_when_invalid]. Qed.
+Print Assumptions C10_edge_table_order_irrelevant_on_valid_meshes.
